@@ -105,6 +105,16 @@ def build(arr, rng, stamped=True):
 
     if rng.random() < .4:
         touch()
+        if stamped and rng.random() < .3:
+            # the caller rescales / shifts the public timestamp array in place afterwards (another
+            # clock unit, a time offset - what evo_traj does with --t_offset)
+            f = float([0.1, 0.5, 2.0, 1e-3][rng.integers(4)])
+            off = float(rng.integers(-5, 6))
+            tr.timestamps *= f
+            tr.timestamps += off
+            arr["t"] = arr["t"] * f
+            arr["t"] = arr["t"] + off
+            arr["exact"] = False
     if rng.random() < .3 and n >= 3:
         ids = sorted(rng.choice(n, size=int(rng.integers(2, n + 1)), replace=False).tolist())
         tr.reduce_to_ids(ids if rng.random() < .5 else np.array(ids))
